@@ -101,6 +101,8 @@ def gen_params(rng):
         p["recomb_prob"] = rng.choice([0.1, 0.2, 0.4])
         p["depth"] = rng.choice([3, 6])
         opts["recombrate"] = rng.choice([1.26, 50.0, 50.0])
+        # 16 or 64 transmission states per column: a smaller --internal-downsampling keeps the solver's table (2^k x 4^children) small
+        opts["max_coverage"] = 8 if len(samples) == 5 else 10
         if "recomb" not in opts["reports"] and rng.random() < 0.8:
             opts["reports"].append("recomb")
     return p, opts
@@ -281,6 +283,12 @@ def run_one(rng, counters):
                 counters["recomb_lines_checked"] = counters.get("recomb_lines_checked", 0) + 1
             if len(calls_with) >= 2:
                 entries_instances = max(entries_instances, 2)
+            if os.path.exists(paths["recomb"]):
+                # the list against the solver's transmission values, line by line and for completeness (shared with C05; here the
+                # phase sets interleave)
+                from wv.checks import c05 as _c05
+
+                viol += _c05.judge_recomb_list(trace, paths["recomb"], counters)
             counters["recomb_files_checked"] = counters.get("recomb_files_checked", 0) + 1
             counters["recomb_events_reported"] = counters.get("recomb_events_reported", 0) + total
         for i in insts:
